@@ -31,6 +31,7 @@ the xdist workers):
                  {"d": "route", ..}  {"d": "resp", "at": "enter"|"return"|"raise"}  {"d": "hx", ..}  {"d": "hxdone", ..}
                  {"d": "http", "status": n}  {"d": "cleanup"}
     end        {"returned": true} | {"raised": exception}       how the app callable ended
+    unfinished true if the app callable had not ended when the test session ended (written then, as it stood)
 
 Events are copied by type, code, reason, subprotocol, headers and by payload KIND and LENGTH (never the payload).
 The recorder decides nothing and touches application objects by attribute reads only.  Every wrapper is
@@ -52,6 +53,7 @@ _SEQ = [0]
 _INSTALLED = [False]
 _ORIG = {}          # 'WebSocket.close' -> the function falcon defines (to notice monkeypatching by a test)
 _ERR = {}           # falcon.errors classes, filled at install
+_PENDING = {}       # id(rec) -> rec: sessions whose app callable has not ended yet
 
 
 def _write(obj):
@@ -175,6 +177,7 @@ def _make_asgi_call(orig):
         except Exception as ex:     # noqa
             rec['error'] = repr(ex)[:200]
         items = rec['ev']
+        _PENDING[id(rec)] = rec
 
         async def recording_send(ev):
             item = {'d': 'send', 'ok': None, 'exc': None}
@@ -218,8 +221,21 @@ def _make_asgi_call(orig):
                 rec['patched_end'] = _patched()
             except Exception:     # noqa
                 pass
-            _write(rec)
+            if _PENDING.pop(id(rec), None) is not None:
+                _write(rec)
     return __call__
+
+
+def flush_pending():
+    """sessions the tests abandoned (the app callable never ended): written as they stand, marked unfinished"""
+    for rec in list(_PENDING.values()):
+        _PENDING.pop(id(rec), None)
+        rec['unfinished'] = True
+        try:
+            rec['patched_end'] = _patched()
+        except Exception:     # noqa
+            pass
+        _write(rec)
 
 
 # ------------------------------------------------------------------------------------------------
@@ -363,6 +379,8 @@ def install():
     AA._ws_cleanup_on_error = _make_cleanup(AA._ws_cleanup_on_error)
     _ORIG['App._handle_websocket'] = AA.__dict__.get('_handle_websocket')
     _INSTALLED[0] = True
+    import atexit
+    atexit.register(flush_pending)
 
 
 def pytest_configure(config):
@@ -371,3 +389,7 @@ def pytest_configure(config):
 
 def pytest_runtest_logstart(nodeid, location):
     _NODE[0] = nodeid
+
+
+def pytest_sessionfinish(session, exitstatus):
+    flush_pending()
